@@ -119,6 +119,7 @@ func (s *S) Run(c *scen.Ctx) {
 	var nextID int32 = 100
 	var wg sync.WaitGroup
 	durs := []int{0, 1, 5, 30, 120, 400, 900, 2500}
+	sdAt := time.Duration(1+simrt.Draw(600, "c12.sdat")) * time.Millisecond
 	for i := 0; i < ncli; i++ {
 		rc := &rawClient{idx: i, eofAt: -1}
 		s.clients = append(s.clients, rc)
@@ -141,11 +142,21 @@ func (s *S) Run(c *scen.Ctx) {
 			abandonAfter = time.Duration(simrt.Draw(600, "c12.abandonat")) * time.Millisecond
 		}
 		halfClose := simrt.Draw(4, "c12.halfclose") == 3
+		// the last of several clients may connect only when the shutdown begins: in the same instant,
+		// a moment earlier or later (the accept loop may or may not have seen the shutdown yet)
+		startDelay := time.Duration(0)
+		if ncli > 1 && i == ncli-1 && simrt.Draw(3, "c12.lateconnect") == 2 {
+			startDelay = sdAt + []time.Duration{-time.Millisecond, 0, 0, 0, time.Millisecond, 30 * time.Millisecond}[simrt.Draw(6, "c12.lateconnectoff")]
+			c.Count("fault.client_connects_as_shutdown_begins", 1)
+		}
 		late := simrt.Draw(3, "c12.late") // requests sent after a pause (possibly during the drain window)
 		pause := time.Duration(simrt.Draw(700, "c12.pause")) * time.Millisecond
 		wg.Add(1)
 		simrt.GoNamed(fmt.Sprintf("rawclient%d", i), func() {
 			defer wg.Done()
+			if startDelay > 0 {
+				simrt.Sleep(startDelay)
+			}
 			cn, err := simnet.Dial("tcp", addr)
 			if err != nil {
 				return
@@ -194,7 +205,7 @@ func (s *S) Run(c *scen.Ctx) {
 		})
 	}
 	// shutdown at a drawn instant
-	simrt.Sleep(time.Duration(1+simrt.Draw(600, "c12.sdat")) * time.Millisecond)
+	simrt.Sleep(sdAt)
 	s.sdCtx = []time.Duration{20 * time.Second, 60 * time.Second, 700 * time.Millisecond, 3 * time.Second}[simrt.Draw(4, "c12.sdctx")] + 137*time.Microsecond
 	c.Describe("shutdown_ctx", s.sdCtx.String())
 	ctx, cancel := context.WithTimeout(context.Background(), s.sdCtx)
